@@ -385,6 +385,12 @@ func (hash *SexpHash) HashSet(key Sexp, val Sexp) error {
 			key = arr.Val[0] // let single number keys work: h[6]=10
 		}
 	}
+	if sym, isSym := key.(*SexpSymbol); isSym && sym.isDot {
+		// HashGet reads a dotted symbol as a path into nested
+		// hashes, so an entry stored under one could never be
+		// found again (by hget, hpair, range or the printer).
+		return fmt.Errorf("HashSet: key cannot be the dotted symbol '%s', that is a path", sym.name)
+	}
 
 	err := hash.TypeCheckField(key, val)
 	if err != nil {
